@@ -60,6 +60,7 @@ func Fonts(engine string) text.FontConfiguration {
 
 // Opts configures one render.
 type Opts struct {
+	Media string // device media type (default print)
 	Engine   string            // "pango" (default) or "gotext"
 	Hints    bool              // presentational hints
 	UserCSS  []string          // user style sheets
@@ -105,7 +106,11 @@ func Parse(htmlText string, o *Opts) (*tree.HTML, error) {
 	if base == "" {
 		base = "http://verif.test/doc.html"
 	}
-	h, err := tree.NewHTML(utils.InputString(htmlText), base, o.Fetcher(), "print")
+	media := o.Media
+	if media == "" {
+		media = "print"
+	}
+	h, err := tree.NewHTML(utils.InputString(htmlText), base, o.Fetcher(), media)
 	if err != nil {
 		return nil, err
 	}
